@@ -70,6 +70,20 @@ func (c *Config) MarshalBinary() ([]byte, error) {
 	})
 }
 
+// UnmarshalCBOR accepts only what cbor.Marshal produces for a Config: the byte string of
+// MarshalBinary. Without it, a CBOR map (or null) decoded into a *Config filled the exported
+// fields directly - or nothing at all - and skipped every check of UnmarshalBinary.
+func (c *Config) UnmarshalCBOR(data []byte) error {
+	var encoded []byte
+	if err := cbor.Unmarshal(data, &encoded); err != nil {
+		return fmt.Errorf("config: %w", err)
+	}
+	if encoded == nil {
+		return errors.New("config: missing")
+	}
+	return c.UnmarshalBinary(encoded)
+}
+
 func (c *Config) UnmarshalBinary(data []byte) (err error) {
 	// malformed input (an empty modulus, a null where a point is expected) makes the decoders of
 	// the underlying libraries panic: restoring must report an error instead
